@@ -638,6 +638,7 @@ fn run_pn(o: &Opts) {
             c.sink.branch(&class);
             let obs = c.op(&format!("arrive {} {}", bits, trunc), &class);
             if let Some(pn) = obs.strip_prefix("ok ").and_then(|v| v.parse::<u64>().ok()) { largest = largest.max(pn + 1); c.sink.nontrivial(); }
+            if jump > (1 << 20) { break; } // the model does not replay the state after a huge fill
         }
     }
     let restarts = c.pool.restarts;
